@@ -23,6 +23,18 @@ pub fn gen_map(rng: &mut Rng, nseg: usize, big_zone_azimuth: bool) -> ClutterMap
         None
     };
     let dense = rng.chance(1, 4);
+    // whole elevation segments without a single range zone (all 360 azimuths declare 0): still
+    // segments of the map, wherever they sit - trailing, leading, in the middle, or all of them
+    let empty: Vec<bool> = match rng.below(12) {
+        0 | 1 => {
+            let k = rng.urange(1, 3);
+            (0..nseg).map(|s| s + k >= nseg).collect()
+        }
+        2 => (0..nseg).map(|s| s == 0).collect(),
+        3 | 4 => (0..nseg).map(|_| rng.chance(1, 3)).collect(),
+        5 => vec![true; nseg],
+        _ => vec![false; nseg],
+    };
     ClutterMap {
         date: rng.range(1, 65_535) as u16,
         minutes: rng.below(1440) as u16,
@@ -30,7 +42,9 @@ pub fn gen_map(rng: &mut Rng, nseg: usize, big_zone_azimuth: bool) -> ClutterMap
             .map(|s| {
                 (0..360)
                     .map(|a| {
-                        let z = if Some((s, a)) == big_at {
+                        let z = if empty[s] {
+                            0
+                        } else if Some((s, a)) == big_at {
                             *rng.pick(&[26usize, 100, 1000, 65_535])
                         } else if dense {
                             rng.urange(0, 25)
@@ -261,9 +275,10 @@ distinct = distinct (segment count, zone density, seed); oracle = structure equa
         crate::ev::Tier::Quick => {
             let mut v = vec![0usize, 1, 2, 3, 5, 8, 16, 255];
             let mut rng = Rng::derive(seed, 13, 0);
-            for _ in 0..24 {
+            for _ in 0..200 {
                 v.push(rng.urange(0, 12));
             }
+            v.extend([40usize, 100, 200, 254]);
             v
         }
         crate::ev::Tier::Thorough => {
